@@ -1,6 +1,6 @@
 """Replay of specification behaviours (recipes) into the real PyTeal library.
 
-A recipe is the JSON form of the uniform node records of spec/PyTealSem.tla / spec/Builder.tla:
+A recipe is the JSON form of the uniform node records of spec/PyTealSem.tla / spec/Gen.tla:
   node    = {k, t, n, s, a, i, sp}
   program = {main: node, rt: [routine], vars: [{t, slot}], mode: "app"|"sig"}
   routine = {pk: ["v"|"r"], ret: "n"|"u"|"b", body: node, locals: [var ids]}
